@@ -13,7 +13,10 @@ VARIABLE l
 InRangeAll(idx, n) == \A x \in DOMAIN idx : idx[x] < n
 
 (* C03: when the parent buffer was recorded (fields pm0, pm1, vin): nothing outside the view changed *)
-ParentOK(e) == Has(e, "pm0") => FrameOK(e.pm0, e.pm1, e.vin)
+ParentOK(e) ==
+    /\ Has(e, "pm0") => FrameOK(e.pm0, e.pm1, e.vin)
+    \* elements whose order looks only at a key: the multiset of *identities* is preserved, not only the keys
+    /\ Has(e, "ida") => SameBag(e.ida, e.idafter)
 
 (* ---- verdict level ---- *)
 PartitionEvOK(e) ==
